@@ -9,7 +9,7 @@ from vlib.engine import Disc, Outcome
 PID = 'C19'
 RULE = ('Hypothesis: sequences of 1..12 typed values (u/i 8/16/32/64 over full range with '
         'extremes, f16/f32/f64 given as IEEE bit patterns incl. subnormal/inf/NaN/-0, bit groups '
-        '1..16, strings 1..9 bytes) x 4 byte/word orders x transport as raw bytes and as registers; '
+        '1..16, byte strings 1..9 bytes, text strings incl. non-ASCII (stored as UTF-8)) x 4 byte/word orders x transport as raw bytes and as registers; '
         'oracle = exact round trip + independent layout function. Non-trivial: some 32/64-bit item '
         'whose expected image differs from plain network order (order actually mattered) or odd '
         'total length; distinct by SHA-1 of the case.')
@@ -42,6 +42,8 @@ def _item():
     alts.append(st.tuples(st.just('str'), st.binary(min_size=1, max_size=9).map(lambda b: b.hex())))
     alts.append(st.tuples(st.just('text'), st.text(alphabet=st.characters(min_codepoint=32, max_codepoint=126),
                                                    min_size=1, max_size=9)))
+    alts.append(st.tuples(st.just('text'), st.text(alphabet=st.characters(blacklist_categories=('Cs',), min_codepoint=1, max_codepoint=0x2FFF),
+                                                   min_size=1, max_size=6)))
     return st.one_of(alts).map(list)
 
 
